@@ -46,7 +46,7 @@ use serde_json::{json, Value};
 use kv::common::*;
 
 const LIM: f64 = 1073741824.0; // 2^30
-const WN: usize = 16; // frames per window end
+const WN: usize = 32; // frames per window end
 
 fn f(v: &Value, k: &str) -> f64 {
 	v[k].as_f64().unwrap_or_else(|| panic!("number field {k} in {v}"))
